@@ -1060,6 +1060,13 @@ def force_moment(vk, cfg):
             if cfg.get("only") != "moment":
                 F = fem.tools.force(field, forces, bnd)
                 vk.ensures_eq(f"{lab}/force==sum of nodal forces", F, sum(fn[p] for p in pts))
+                # a boundary that prescribes only some components (skip=): its POINTS are the same, and the force is
+                # the sum of the complete nodal force vectors there (the reaction along a free axis is part of it)
+                for skip in ([(True, False, False), (False, True, True)] if dim == 3 else [(True, False), (False, True)]) if k % 3 == 0 else []:
+                    bs = fem.Boundary(field[0], mask=mask, skip=skip)
+                    if vk.sym:
+                        vk.ensures_true(f"{lab}/skip={skip}/boundary.points", list(bs.points) == list(pts), str(bs.points), backend="exec")
+                    vk.ensures_eq(f"{lab}/skip={skip}/force==sum of nodal forces (all components)", fem.tools.force(field, forces, bs), sum(fn[p] for p in pts))
             for cname, cp in (("given", c3), ("default", None)) if cfg.get("only") != "force" else ():
                 M = fem.tools.moment(field, forces, bnd, cp) if cp is not None else fem.tools.moment(field, forces, bnd)
                 c = cp[:dim] if cp is not None else 0 * c3[:dim]
